@@ -31,3 +31,9 @@ package rapi
 //@ event NetListen = call net.Listen
 //@ func (*Server).Listen
 //@   ensures [C16: the-listen-address-splits-back-into-host-and-port] delta(NetListen) == 1 && hostOf(lastarg(NetListen, 1)) == old(s.host) && portOf(lastarg(NetListen, 1)) == itoa(old(s.port)) && lastarg(NetListen, 0) == "tcp"
+
+// C01 / C12 ("next blocks until an invocation is available"; "every event ... is handed to the function runtime ... on its next
+// poll"): a runtime or an extension parks in its next poll for as long as the function is idle; the Runtime API's http.Server
+// therefore sets no deadline on writing the reply or on the connection
+//@ func NewServer
+//@   ensures [a-parked-poll-is-not-cut-off-by-the-server] r0 != nil && r0.server != nil && r0.server.WriteTimeout == 0 && r0.server.ReadTimeout == 0 && r0.server.IdleTimeout == 0
